@@ -358,7 +358,8 @@ def trace_corr(mode, module, ntraces, relevant, rule, nontrivial, corpus_dir=Non
 GW_RULE = ('histories generated by harness/src/gateway_mode.rs from one PRNG (seed=VERIF_SEED): deployments with retention 0-3, delay 0/10/100, '
            '1-5 signers from a pool of 8 real ed25519 keys (small/equal/huge weights); approvals, rotations, validations, operatorship transfers and views; '
            'proofs: minimal quorum, all sign, threshold-1, invalid signature before/after the quorum point, shifted/short/long/empty vector, wrong domain/tag/batch/set, '
-           'non-canonical weights, trailing byte, wrong key; sets: latest, older, retention edge, expired, unregistered; time steps around the rotation delay. '
+           'non-canonical weights, trailing byte, wrong key; sets: latest, older, retention edge, expired, unregistered; time steps around the rotation delay; '
+           'every eighth history (t % 8 == 3) also contains UPGRADE transactions by the owner (no-op, operator only, one / two fresh sets, a duplicate set, a malformed set, a 31-byte operator, zero-padded weights), compared with Model/GWUpgrade.v. '
            'Every step compares status, return data, events and the storage diff with the Coq model (keccak-256 executed in Coq, signature oracle = table of honestly produced signatures). '
            'distinct = distinct operation sequences; non-trivial = at least one accepted and one rejected state-changing operation')
 
@@ -368,13 +369,13 @@ def gw_nontrivial(tr):
     return any(oks) and not all(oks)
 
 
-register('C01', corr=trace_corr('gateway', 'gwcases', (48, 1600), lambda op, code: op['op'] in ('approve', 'rotate', 'init') and code & 9, GW_RULE, gw_nontrivial),
+register('C01', corr=trace_corr('gateway', 'gwcases', (48, 1600), lambda op, code: op['op'] in ('approve', 'rotate', 'init', 'upgrade') and code & 9, GW_RULE, gw_nontrivial),
          assumptions=['keccak-256 and ed25519 are outside the proofs: theorems hold for every hash and verifier function; collision-freedom appears only as explicit hypotheses of c01_digest_binding',
                       'u64 timestamps: block time monotone and below 2^64'])
-register('C02', corr=trace_corr('gateway', 'gwcases', (48, 1600), lambda op, code: op['op'] in ('approve', 'validate', 'isApproved', 'isExecuted') and code & 15, GW_RULE, gw_nontrivial),
+register('C02', corr=trace_corr('gateway', 'gwcases', (48, 1600), lambda op, code: (op['op'] in ('approve', 'validate', 'isApproved', 'isExecuted') and code & 15) or (op['op'] == 'upgrade' and code & 9), GW_RULE, gw_nontrivial),
          assumptions=['collision-freedom only as the explicit hypothesis of c02_binding'])
-register('C03', corr=trace_corr('gateway', 'gwcases', (48, 1600), lambda op, code: op['op'] in ('rotate', 'transferOp', 'init', 'approve') and code & 9, GW_RULE, gw_nontrivial),
-         assumptions=['block time monotone (now >= last rotation timestamp) and below 2^64; the upgrade endpoint is not modelled'])
+register('C03', corr=trace_corr('gateway', 'gwcases', (48, 1600), lambda op, code: (op['op'] in ('rotate', 'transferOp', 'init', 'approve') and code & 9) or (op['op'] == 'upgrade' and code & 13), GW_RULE, gw_nontrivial),
+         assumptions=['block time monotone (now >= last rotation timestamp) and below 2^64; the upgrade endpoint is modelled in Model/GWUpgrade.v (an upgrade transaction is the owner\'s by protocol rule: the harness sends it from the owner only)'])
 
 
 TM_RULE = ('histories generated by harness/src/tm_mode.rs (seed=VERIF_SEED): a token manager of each of the five types deployed with a user account as its service; '
